@@ -66,6 +66,7 @@ BaseSeq == <<
   EmptyArr, Ar(<<I(0)>>), Ar(<<I(1)>>), Ar(<<I(2)>>), Ar(<<JStr(A)>>), Ar(<<JNull>>),
   Ar(<<I(0), I(0)>>), Ar(<<I(0), I(1)>>), Ar(<<I(1), I(1)>>), Ar(<<I(1), JStr(A)>>), Ar(<<JStr(A), I(1)>>), Ar(<<I(2), I(1)>>),
   Ar(<<I(0), I(1), I(2)>>), Ar(<<I(1), I(2), I(1)>>), Ar(<<I(1), I(1), JStr(A)>>),
+  Ar(<<I(0), F>>), Ar(<<T, I(1)>>),
   Ar(<<EmptyArr>>), Ar(<<Ar(<<I(0)>>)>>), Ar(<<EmptyObj>>), Ar(<<O1(A, I(1))>>), Ar(<<O2(A, I(1), B, I(1)), O2(A, I(1), B, I(1))>>),
   EmptyObj, O1(A, I(0)), O1(A, I(1)), O1(A, I(2)), O1(A, JStr(A)), O1(A, JNull), O1(B, I(1)), O1(B, JStr(A)), O1(C, I(1)),
   O2(A, I(1), B, I(1)), O2(A, I(1), B, JStr(A)), O2(A, JStr(A), B, I(1)), O2(A, I(1), C, I(1)), O2(B, I(1), C, I(1)), O2(A, I(0), B, I(2)),
@@ -267,7 +268,11 @@ Wraps(dd, x, name) ==
           K3(dk, O1(A, x), "$ref", JStr(DefsPtr(dd, A)), "type", Str("object")),                   \* siblings of $ref: ignored up to d7, applied from 2019-09
           K2("properties", O1(A, x), "additionalProperties", K1("$ref", JStr(<<35, 47>> \o S("properties") \o <<47>> \o A))),
           K2("not", x, "properties", O1(A, K1("$ref", JStr(<<35, 47>> \o S("not"))))),
-          K2("properties", O1(A, K1("$ref", JStr(<<35>>))), "allOf", Ar(<<x>>)) }                  \* recursion through the root
+          K2("properties", O1(A, K1("$ref", JStr(<<35>>))), "allOf", Ar(<<x>>)),                   \* recursion through the root
+          \* RFC 6901 escapes in the fragment: member names "a/b" (~1), "m~n" (~0) and ""
+          K2("properties", O1(<<97, 47, 98>>, x), "additionalProperties", K1("$ref", JStr(<<35, 47>> \o S("properties") \o <<47, 97, 126, 49, 98>>))),
+          K2("properties", O1(<<109, 126, 110>>, x), "additionalProperties", K1("$ref", JStr(<<35, 47>> \o S("properties") \o <<47, 109, 126, 48, 110>>))),
+          K2("properties", O1(<<>>, x), "additionalProperties", K1("$ref", JStr(<<35, 47>> \o S("properties") \o <<47>>))) }
         \* (array-valued "dependencies" below an "$id"/"id" anchor crash the reference validator's resource crawler: left out)
         \cup (IF x[1] = "obj" /\ AnchorName(dd, x) = <<>> /\ S("$ref") \notin DOMAIN x[2] /\ ~UsesKw(dd, x, "dependencies") /\ S("$id") \notin DOMAIN x[2] /\ S("id") \notin DOMAIN x[2]
               THEN { K2(dk, O1(A, WithKv(x, AnchorKv(dd, X))), "$ref", JStr(<<35>> \o X)),
@@ -295,7 +300,9 @@ Plan ==
     [] PlanName = "triples" -> <<Ad("core"), Ad("core"), Ad("core")>>
     [] PlanName = "uneval" -> <<Ad("annot"), Ne("inplace"), Ad("uneval")>>
     [] PlanName = "uneval2" -> <<Ad("annot"), Ad("annot"), Ne("inplace"), Ad("uneval")>>
+    [] PlanName = "uneval3" -> <<Ad("annot"), Ne("inplace"), Ne("inplace"), Ad("uneval")>>
     [] PlanName = "refs" -> <<Ad("refsmid"), Ad("refs"), Ad("refs")>>
+    [] PlanName = "refs2" -> <<Ad("core"), Ne("ref"), Ne("struct")>>
 
 (* sh spreads the first step over NSpread seeds per dialect so that all TLC  *)
 (* workers are busy from the start (cases are evaluated by the worker that   *)
@@ -421,7 +428,7 @@ Emit == IF pc = 0 THEN (PlanName = "base" => PrintT(ToJson(BaseCase)))
 Same(x, y) == x = y \/ x = "loop" \/ y = "loop"
 Vd(x, v) == Ev(d, s, x, v, {}).st
 RefFree(x) == \A y \in Subs(d, x) : y[1] = "obj" => S("$ref") \notin DOMAIN y[2]
-IdSample == { j \in 1..Len(BaseSeq) : (j % 3) = 1 } \cup {36, 46, 52}
+IdSample == { j \in 1..Len(BaseSeq) : (j % 3) = 1 } \cup {38, 48, 54}
 Identities ==
   (pc >= 2 /\ WF) =>
     \A j \in IdSample :
